@@ -3,7 +3,7 @@
 # For each: scratch worktree of /repo (current HEAD if the patch still applies, else the seed's base commit),
 # apply patch.diff, run the property's quick check with VERIF_REPO, remove the worktree.
 cd "$(dirname "$0")/.."
-out=seeded/RESULTS.md
+out=${SEEDRUN_OUT:-seeded/RESULTS.md}
 echo "| seed | base | check rc | first violation |" > $out.tmp
 echo "|---|---|---|---|" >> $out.tmp
 for d in seeded/C*/; do
